@@ -51,7 +51,7 @@ CODECS = ["utf-8", "utf-16", "utf-32", "latin-1"]
 
 BOUNDS = {
     "quick": "all single-slot deviations over the full alphabets (36 text / 28 name specials, 3 page-2 variants) + all "
-             "slot pairs over the 6-element core alphabets; option grid: 5 LAParams x {text, xml x strip_control} x {StringIO, BytesIO x 4 codecs} "
+             "slot pairs over the 6-element core alphabets; option grid: 5 LAParams x {extract_text(), text, xml x strip_control} x {StringIO, BytesIO x 4 codecs} "
              "for documents with <= 1 special slot; for two-slot documents the BytesIO x codec part only under the default LAParams",
     "thorough": "all choice vectors with <= 2 non-default slots over the full alphabets; same option grids",
 }
@@ -427,6 +427,12 @@ def compare_xml(root, pages, strip: bool):
 def convert(pdf: bytes, la, output: str, sink: str, codec: str, strip: bool):
     """Return ('ok', value) | ('unrepresentable', msg) | ('exc', signature-part, msg)."""
     hl, lt, *_ = _pdfminer()
+    if sink == "return":  # high_level.extract_text: same option plumbing, result returned as str
+        try:
+            return ("ok", hl.extract_text(io.BytesIO(pdf), codec=codec, laparams=lt.LAParams(**la)))
+        except Exception as e:  # noqa
+            tb = traceback.extract_tb(e.__traceback__)
+            return ("exc", f"{type(e).__name__}@{tb[-1].name}", f"{type(e).__name__}: {e}"[:200])
     out = io.StringIO() if sink == "str" else io.BytesIO()
     c = codec
     if sink == "str" and output == "xml":
@@ -475,24 +481,32 @@ class Ctx:
         return self._str[k]
 
 
+_C0 = "[\x00-\x08\x0b\x0c\x0e-\x1f]"
+_NONCHAR = "[\ufffe\uffff]"
+
+
 def classify_illformed(ctx: Ctx, text: str, err: str, strip: bool, codec: str) -> str:
-    figs = [s for k, s in ctx.strings if k == "figure"]
-    fonts = [s for k, s in ctx.strings if k == "font"]
+    """Name the cause by what is actually present in the rejected output."""
     if codec in ("utf-16", "utf-32") and text.count("\ufeff") > sum(s.count("\ufeff") for _, s in ctx.strings):
         return "C11/xml-binary-sink-bom-per-write"
-    if any(re.search('[&<"]', s) for s in figs):
+    if _raw_figure_name_in(ctx, text):
         return "C11/xml-figure-name-unescaped"
-    if strip and any(XML_FORBIDDEN.search(s) for s in figs + fonts):
-        return "C11/xml-control-char-in-name-not-stripped"
-    if strip and any("\uffff" in s or "\ufffe" in s for k, s in ctx.strings if k == "text"):
-        return "C11/xml-noncharacter-in-text-not-stripped"
+    for pat, what in ((_C0, "control-char"), (_NONCHAR, "noncharacter")):
+        if re.search(pat, text):
+            if re.search(r'<(?:figure name|text font)="[^"]*' + pat, text):
+                return f"C11/xml-{what}-in-name-not-stripped"
+            return f"C11/xml-{what}-in-text-not-stripped"
     return "C11/xml-not-wellformed:" + re.sub(r":? *line \d+, column \d+", "", err)
 
 
-def classify_diff(d: Diff, ctx: "Ctx") -> str:
+def _raw_figure_name_in(ctx: "Ctx", text: str) -> bool:
+    return any(re.search('[&<"]', s) and f'<figure name="{s}" bbox=' in text for s in {s for k, s in ctx.strings if k == "figure"})
+
+
+def classify_diff(d: Diff, ctx: "Ctx", text: str) -> str:
     e, o = d.expected, d.observed
-    if d.kind in ("figure-name", "structure") and any(re.search('[&<"]', s) for k, s in ctx.strings if k == "figure"):
-        # an unescaped name that happens to stay well-formed: entity references are resolved, or markup is injected
+    # an unescaped name that happens to stay well-formed: entity references are resolved, or markup is injected
+    if d.kind in ("figure-name", "structure") and _raw_figure_name_in(ctx, text):
         return "C11/xml-figure-name-unescaped"
     if d.kind in ("text", "font", "figure-name") and isinstance(e, str) and isinstance(o, str):
         if d.kind == "text" and e.replace("\r\n", "\n").replace("\r", "\n") == o:
@@ -548,7 +562,7 @@ def judge(ctx: Ctx, output: str, sink: str, codec: str, strip: bool):
         if output == "text":
             exp = tree_text(ctx.pages)
             if text != exp:
-                viols.append(("C11/text-differs-from-tree", exp[:300], text[:300], "text output is not the in-order concatenation of the hierarchy"))
+                viols.append(("C11/extract_text-differs-from-tree" if sink == "return" else "C11/text-differs-from-tree", exp[:300], text[:300], "text output is not the in-order concatenation of the hierarchy"))
             return ("judged", h64(text), viols)
     # ---- xml (text is the character content of the output)
     if ctx.has_forbidden and not strip:
@@ -561,7 +575,7 @@ def judge(ctx: Ctx, output: str, sink: str, codec: str, strip: bool):
     try:
         compare_xml(root, ctx.pages, strip)
     except Diff as d:
-        viols.append((classify_diff(d, ctx), d.expected, d.observed, f"XML differs from the hierarchy at {d.path} ({d.kind})"))
+        viols.append((classify_diff(d, ctx, text), d.expected, d.observed, f"XML differs from the hierarchy at {d.path} ({d.kind})"))
     if sink == "bytes":
         ref = ctx.str_output(output, strip)
         if ref[0] == "ok" and xml_body(ref[1]) != xml_body(text) and not viols:
@@ -578,6 +592,8 @@ def judge(ctx: Ctx, output: str, sink: str, codec: str, strip: bool):
 def grid(la, full: bool):
     """Option grid.  full: every sink/codec under every LAParams.  reduced (two-slot documents): text sinks under every
     LAParams, binary sinks x codecs under the default LAParams only (the sink layer does not see the layout)."""
+    if la is not None:
+        yield "text", "return", "utf-8", False  # extract_text(); with laparams=None it substitutes LAParams(), which is the {} row
     for output in ("text", "xml"):
         for strip in ((False,) if output == "text" else (False, True)):
             yield output, "str", "utf-8", strip
